@@ -6,7 +6,7 @@ import numpy as np
 from hypothesis import strategies as st
 
 import nifty.cl as ift
-from vlib import Discard, Violation, close, require
+from vlib import Violation, require
 from vlib import nx
 from vlib import strat as S
 
@@ -246,7 +246,8 @@ def squeeze_recipes(draw, tier):
             r = draw(C.space(max_size=6, kinds=SMALLK))
         rs.append(r)
     aggressive = draw(st.booleans())
-    return {"dom": rs, "aggressive": aggressive, "seed": draw(SEED)}
+    return {"dom": rs, "aggressive": aggressive, "via": draw(st.sampled_from(["class", "class", "method"])),
+            "seed": draw(SEED)}
 
 
 def squeeze_check(rec):
@@ -272,9 +273,12 @@ def squeeze_check(rec):
         try:
             ift.SqueezeOperator(dom, aggressive=agg)
         except RuntimeError:
-            raise Discard()
-        raise Violation("nothing_to_squeeze_accepted", "documented RuntimeError was not raised")
-    op = ift.SqueezeOperator(dom, aggressive=agg)
+            return dict(nontrivial=False, classes=["nothing_to_squeeze_raises"])
+        raise Violation("nothing_to_squeeze_accepted", "RuntimeError('Nothing found to be squeezed') was not raised")
+    if rec.get("via", "class") == "method":
+        op = ift.ScalingOperator(dom, 1.).squeeze(agg)        # Operator.squeeze
+    else:
+        op = ift.SqueezeOperator(dom, aggressive=agg)
     tshape = C.full_shape(trs)
 
     def ref(x):
@@ -283,7 +287,8 @@ def squeeze_check(rec):
     tgt = C.mk_dom(trs)
     cls = C.verify(op, ref, rec["seed"], exp_dom=dom, exp_tgt=tgt, exp_cap=15)
     # Operator.unsqueeze-style use: the adjoint is the inverse
-    cls += C.dom_classes(rs) + ["aggressive" if agg else "plain", f"removed_{min(removed, 3)}"]
+    cls += C.dom_classes(rs) + ["aggressive" if agg else "plain", f"removed_{min(removed, 3)}",
+                                "via_" + rec.get("via", "class")]
     if len(trs) == 0:
         cls.append("scalar_target")
     return dict(nontrivial=len(rs) >= 2, classes=cls)
